@@ -55,6 +55,14 @@ def templates():
     T('evaluate_comparisons', cmp(add(XI, num(1)), '=', add(num(1), XI)))
     T('evaluate_comparisons', cmp(X, '=', XI))
     T('evaluate_comparisons', cmp(num(1), '<', num(2), '<', num(1)))
+    # ground arithmetic at the limits of the machine integer type (TPTP $int and the standard interpretation are unbounded)
+    IMAX, IMIN = 9223372036854775807, -9223372036854775808
+    for t in (add(num(IMAX), num(1)), sub(num(IMIN), num(1)), mul(num(IMAX), num(2)), mul(num(IMIN), num(-1)), ineg(num(IMIN)),
+              sub(num(0), num(IMIN)), add(add(num(IMAX), num(1)), num(-1)), mul(num(4611686018427387904), num(2)), add(num(1), num(2))):
+        T('ground_arithmetic', atom('q', t))
+        T('ground_arithmetic', cmp(XI, '=', t))
+        T('ground_arithmetic', cmp(t, '>', num(IMAX)))
+        T('ground_arithmetic', exists([var('X', 'i')], conj(cmp(XI, '=', t), atom('q', XI))))
     # 2-4 definitions
     for a in ATOMS:
         T('negation_definition', imp(a, FALSE))
@@ -228,6 +236,15 @@ def generate(tier, seed):
                 g = resort(f, name, sort)
                 if g != f:
                     items.append({'family': fam + '/resorted', 'formula': g})
+    # the same templates with both operands of the top-level connective put under the same quantifier block (or under a
+    # negation): a rewrite that matches a pair of formulas must not look through a prefix it cannot distribute over
+    for fam, f in tpl:
+        if f[0] in BIN:
+            for wrap in (lambda x: forall([var('X')], x), lambda x: exists([var('X')], x), lambda x: exists([var('X'), var('Y', 'i')], x),
+                         lambda x: forall([var('Z')], exists([var('X')], x)), neg):
+                if tier == 'quick' and rnd.random() > 0.25:
+                    continue
+                items.append({'family': fam + '/wrapped-operands', 'formula': (f[0], wrap(f[1]), wrap(f[2]))})
     for lit in harvest_repo_tests():
         items.append({'family': 'repo-unit-tests', 'text': lit})
     pool = [f for _, f in tpl]
